@@ -10,6 +10,7 @@ import numpy as np
 import common
 import meta
 import popgen
+import t3
 
 
 def run(tier: str) -> int:
@@ -18,8 +19,9 @@ def run(tier: str) -> int:
     r.rule = ("per population: every node of the default graph requested (a) alone, (b) in random target sets, (c) with "
               "all nodes; noise columns added; debug / check_minimal_specification varied; values compared bit-for-bit "
               "(same process, same inputs), row count, row order and exactly-the-targets contract. distinct = (population, target set).")
-    common.build_and_audit(r, ["C04"], leanchecker=not quick)
+    common.build_and_audit(r, ["C04", "T3"], leanchecker=not quick)
     rnd = common.rng("C04")
+    t3.run_t3(r, 1000 * common.seed() + 4, 40 if quick else 600)
     for date in (popgen.DATES_QUICK if quick else popgen.DATES_2015):
         nodes = popgen.computed_nodes(date)
         for k in range(2 if quick else 6):
